@@ -101,11 +101,15 @@ class Parser:
         context._titles = excel.get_titles()
         context._sheets_size = excel.get_sheets_size()
 
-        if self._entrypoint_cell:
-            cell = self._entrypoint_cell
-            CellTranslator.translate(Cell(cell.title, cell.column, cell.row), excel, context)
-        else:
-            CellTranslator.translate_file(excel, context)
+        try:
+            if self._entrypoint_cell:
+                cell = self._entrypoint_cell
+                CellTranslator.translate(Cell(cell.title, cell.column, cell.row), excel, context)
+            else:
+                CellTranslator.translate_file(excel, context)
+        except RecursionError:
+            # a cell is translated inside the translation of the cell that refers to it
+            raise E2PyclParserException('The formulas or the chain of cells they depend on are nested too deeply')
 
         self._translation = context.build_class()
 
